@@ -1,0 +1,116 @@
+//go:build verif
+
+// Contracts of this package for the deductive verifier in /verif (vcgo).
+// Comment-only; compiled only with -tags verif.
+
+package proxy
+
+// ---------------------------------------------------------------------------
+// Ghost model of what the proxy code does with a request (C01, C06, C08, C10):
+//   hdrFwd[h], hdrUpgrade[h], hdrEndpoint[h]   the values of the three headers piko reads, per header map h
+//   gSelected/gSelEndpoint/gSelAllow            the one call of Manager.Select
+//   gProxied/gProxiedFwd                        the request handed to httputil.ReverseProxy and its x-piko-forward value
+//   gServed/gServedEndpoint/gServedUpstream     the call of ServeHTTPWithUpstream
+//   gDialed/gDialedUpstream                     a direct Dial of an upstream by the TCP proxy
+//   gStatus/gWrote                              the status piko itself wrote
+//   gTimeoutSet                                 a timeout context was attached
+
+//@ ghost hdrFwd arr[string]
+//@ ghost hdrUpgrade arr[string]
+//@ ghost hdrEndpoint arr[string]
+//@ ghost gSelected bool
+//@ ghost gSelEndpoint string
+//@ ghost gSelAllow bool
+//@ ghost gProxied bool
+//@ ghost gProxiedFwd string
+//@ ghost gServed bool
+//@ ghost gServedEndpoint string
+//@ ghost gServedUpstream upstream.Upstream
+//@ ghost gDialed bool
+//@ ghost gDialedUpstream upstream.Upstream
+//@ ghost gRemoved bool
+//@ ghost gStatus int
+//@ ghost gWrote bool
+//@ ghost gTimeoutSet bool
+//@ ghost gUpgraded bool
+
+// ---- assumed contracts of net/http, context, gin ------------------------------
+
+//@ extern net/http.Header.Get
+//@   ensures[fwd] key == "x-piko-forward" ==> result == hdrFwd[h]
+//@   ensures[upgrade] key == "upgrade" ==> result == hdrUpgrade[h]
+//@   ensures[endpoint] key == "x-piko-endpoint" ==> result == hdrEndpoint[h]
+//@ extern net/http.Header.Set
+//@   modifies-all $hdrFwd $hdrUpgrade $hdrEndpoint
+//@   ghost-set hdrFwd = (key == "x-piko-forward") ? store(old(hdrFwd), h, value) : old(hdrFwd)
+//@   ghost-set hdrUpgrade = (key == "upgrade") ? store(old(hdrUpgrade), h, value) : old(hdrUpgrade)
+//@   ghost-set hdrEndpoint = (key == "x-piko-endpoint") ? store(old(hdrEndpoint), h, value) : old(hdrEndpoint)
+//@ extern net/http.(*Request).WithContext
+//@   ensures[copy] result != nil && fresh(result) && result.Header == r.Header && result.Host == r.Host && result.URL == r.URL && result.Method == r.Method && result.Body == r.Body
+//@ extern net/http.(*Request).Context
+//@ extern context.WithTimeout
+//@   modifies-all $gTimeoutSet
+//@   ghost-set gTimeoutSet = true
+//@ extern context.WithValue
+//@ extern net/http/httputil.(*ReverseProxy).ServeHTTP
+//@   modifies-all $gProxied $gProxiedFwd
+//@   ghost-set gProxied = true
+//@   ghost-set gProxiedFwd = hdrFwd[req.Header]
+//@ extern-iface net/http.(ResponseWriter).WriteHeader
+//@   modifies-all $gStatus $gWrote
+//@   ghost-set gStatus = statusCode
+//@   ghost-set gWrote = true
+//@ extern-iface net/http.(ResponseWriter).Header
+//@   ensures[nonnil] result != nil
+//@ extern github.com/gorilla/websocket.(*Upgrader).Upgrade
+//@   modifies-all $gUpgraded
+//@   ghost-set gUpgraded = true
+
+// ---- the manager and upstreams as the proxy sees them --------------------------
+
+//@ nonnil HTTPProxy.upstreams HTTPProxy.proxy TCPProxy.upstreams TCPProxy.httpProxy TCPProxy.websocketUpgrader
+//@ immutable HTTPProxy.upstreams HTTPProxy.proxy HTTPProxy.timeout TCPProxy.upstreams TCPProxy.httpProxy TCPProxy.websocketUpgrader
+
+//@ contract (*HTTPProxy).ServeHTTPWithUpstream
+//@   serves C06 C08 C01
+//@   requires[request] r != nil && r.Header != nil
+//@   ghost-set gServed = true
+//@   ghost-set gServedEndpoint = endpointID
+//@   ghost-set gServedUpstream = upstream
+//@   ensures[stamped] !old(gProxied) && gProxied ==> gProxiedFwd == "true"
+//@   ensures[proxied] gProxied
+//@   ensures[timeout-rule] !old(gTimeoutSet) ==> (gTimeoutSet == (p.timeout != 0 && old(hdrUpgrade[r.Header]) != "websocket"))
+//@   ensures[no-status] gStatus == old(gStatus) && gWrote == old(gWrote)
+
+//@ contract (*HTTPProxy).ServeHTTP
+//@   serves C06 C08 C01
+//@   requires[request] r != nil && r.Header != nil && w != nil
+//@   requires[fresh-step] !gSelected && !gServed && !gProxied
+//@   ensures[selected] gSelected && gSelEndpoint == endpointID
+//@   ensures[no-second-hop] old(hdrFwd[r.Header]) == "true" ==> !gSelAllow
+//@   ensures[first-hop-may-forward] old(hdrFwd[r.Header]) != "true" ==> gSelAllow
+//@   ensures[served-selected] gServed ==> gServedEndpoint == endpointID && gServedUpstream != nil && gServedUpstream.EndpointID() == endpointID && (!gSelAllow ==> !gServedUpstream.Forward())
+//@   ensures[502-none] !gServed ==> gWrote && gStatus == 502 && !gProxied
+//@   ensures[stamped] gProxied ==> gProxiedFwd == "true"
+
+//@ contract errorResponse
+//@   serves C08 C06
+//@   requires[writer] w != nil
+//@   ensures[status] gWrote && gStatus == statusCode
+//@   ensures[no-proxy] gProxied == old(gProxied) && gServed == old(gServed) && gSelected == old(gSelected) && gDialed == old(gDialed)
+
+//@ contract (*HTTPProxy).errorHandler
+//@   serves C08
+//@   requires[writer] w != nil
+//@   ensures[504-on-deadline] errIs(err, context.DeadlineExceeded) ==> gWrote && gStatus == 504
+//@   ensures[502-otherwise] !errIs(err, context.DeadlineExceeded) ==> gWrote && gStatus == 502
+
+//@ contract (*TCPProxy).ServeHTTP
+//@   serves C06 C01
+//@   requires[request] r != nil && r.Header != nil && w != nil
+//@   requires[fresh-step] !gSelected && !gServed && !gProxied && !gDialed
+//@   ensures[selected] gSelected && gSelEndpoint == endpointID
+//@   ensures[no-second-hop] old(hdrFwd[r.Header]) == "true" ==> !gSelAllow
+//@   ensures[forward-via-http] gDialed ==> gDialedUpstream != nil && !gDialedUpstream.Forward() && gDialedUpstream.EndpointID() == endpointID && !gServed
+//@   ensures[served-selected] gServed ==> gServedUpstream != nil && gServedUpstream.Forward() && gServedUpstream.EndpointID() == endpointID && gSelAllow && !gDialed
+//@   ensures[502-none] !gServed && !gDialed ==> gWrote && gStatus == 502
